@@ -29,7 +29,8 @@ func (g *GraphSpec) Validate() error {
 			return fmt.Errorf("too many parents")
 		}
 		for _, p := range ps {
-			if p < 0 || p >= i || seen[p] {
+			// a parent may be listed twice (`wrgl merge main topic topic` writes such a commit)
+			if p < 0 || p >= i {
 				return fmt.Errorf("node %d: bad parent %d", i, p)
 			}
 			seen[p] = true
